@@ -39,9 +39,10 @@ var in15 = &interner{names: map[string]string{}}
 // plus nil and a few ordinary keys
 func keys15() []types.Value {
 	return []types.Value{
-		types.NewInt8(1), types.NewUint8(1), types.NewBoolean(true), types.NewString("\x01"),
-		types.NewBinary([]byte{1}), types.NewError(errors.New("\x01")),
-		types.NewFloat64(0), types.NewFloat64(math.Copysign(0, -1)), types.NewInt(0), types.NewUint64(0), types.NewInt64(0),
+		// one collision class, listed in ascending Compare order (kind order)
+		types.NewBinary([]byte{1}), types.NewBoolean(true), types.NewError(errors.New("\x01")),
+		types.NewInt8(1), types.NewUint8(1), types.NewString("\x01"),
+		types.NewInt(0), types.NewInt64(0), types.NewUint64(0), types.NewFloat64(0), types.NewFloat64(math.Copysign(0, -1)),
 		nil, types.NewString("a"), types.NewString("b"), types.NewInt(1),
 	}
 }
@@ -75,6 +76,14 @@ func (o *refObj) find(k types.Value) int {
 	return -1
 }
 
+func sortInts(a []int, desc bool) {
+	for i := 1; i < len(a); i++ {
+		for j := i; j > 0 && ((!desc && a[j] < a[j-1]) || (desc && a[j] > a[j-1])); j-- {
+			a[j], a[j-1] = a[j-1], a[j]
+		}
+	}
+}
+
 func renderPairs(m types.Map) string {
 	var items []string
 	for k, v := range m.Range() {
@@ -97,6 +106,49 @@ func history15(r *rand.Rand, hist map[string]int) (string, any, string, bool) {
 		return -1
 	}
 	n := 4 + r.Intn(11)
+	if r.Intn(3) == 0 {
+		n = 12 + r.Intn(14) // long histories: buckets of 3+ colliding keys, several derived maps
+	}
+	// focus class: most keys of one history come from one collision class, so buckets grow
+	focus := keys[:6]
+	if r.Intn(3) == 0 {
+		focus = keys[6:11]
+	}
+	pick := func() types.Value {
+		if r.Intn(10) < 7 {
+			return focus[r.Intn(len(focus))]
+		}
+		return keys[r.Intn(len(keys))]
+	}
+	// prelude: fill one map with focus keys in ascending / descending / random order, so that buckets are
+	// built by tail appends, head inserts or middle inserts, before the random part forks and continues
+	type scripted struct {
+		kind int // 0 new, 1 set, 2 immutable, 3 mutable
+		key  types.Value
+		back int // target handle counted from the newest (0 = newest)
+	}
+	var script []scripted
+	if r.Intn(2) == 0 {
+		cnt := 2 + r.Intn(2)
+		idx := r.Perm(len(focus))[:cnt+2]
+		mode := r.Intn(3)
+		switch mode {
+		case 0:
+			sortInts(idx, false)
+		case 1:
+			sortInts(idx, true)
+		}
+		script = append(script, scripted{kind: 0})
+		for _, i := range idx[:cnt] {
+			script = append(script, scripted{kind: 1, key: focus[i]})
+		}
+		if r.Intn(3) > 0 { // fork, then write the remaining (in sorted modes: outermost) keys on both sides of the fork
+			script = append(script, scripted{kind: 2 + r.Intn(2)})
+			script = append(script, scripted{kind: 1, key: focus[idx[cnt]], back: r.Intn(2)})
+			script = append(script, scripted{kind: 1, key: focus[idx[cnt+1]], back: r.Intn(3)})
+			script = append(script, scripted{kind: 1, key: focus[idx[cnt]], back: r.Intn(3)})
+		}
+	}
 	var steps []string
 	var inputs []string
 	fail := ""
@@ -105,7 +157,11 @@ func history15(r *rand.Rand, hist map[string]int) (string, any, string, bool) {
 		var opG, opS string
 		var ret types.Map
 		var refRet int
-		if len(objs) == 0 || r.Intn(10) == 0 {
+		var forced *scripted
+		if s < len(script) {
+			forced = &script[s]
+		}
+		if (forced != nil && forced.kind == 0) || (forced == nil && (len(objs) == 0 || r.Intn(10) == 0)) {
 			mut := r.Intn(2) == 0
 			if mut {
 				ret = types.NewMapWithSize(0)
@@ -119,15 +175,29 @@ func history15(r *rand.Rand, hist map[string]int) (string, any, string, bool) {
 			hist["new"]++
 		} else {
 			h := r.Intn(len(objs))
+			if r.Intn(2) == 0 && len(objs) > 2 { // prefer recent objects: derived maps keep being used
+				h = len(objs) - 1 - r.Intn(2)
+			}
 			m, ro := objs[h], refs[h]
 			fresh := func(o *refObj) int { refs = append(refs, o); return len(refs) - 1 }
 			cp := func(mut bool) *refObj {
 				return &refObj{mut: mut, pairs: append([][2]types.Value(nil), ro.pairs...)}
 			}
-			switch c := r.Intn(20); {
+			c := r.Intn(20)
+			if forced != nil {
+				c = map[int]int{1: 0, 2: 19, 3: 16}[forced.kind]
+				h = len(objs) - 1 - forced.back
+				if h < 0 {
+					h = 0
+				}
+				m, ro = objs[h], refs[h]
+			}
+			switch {
 			case c < 11:
-				k, v := keys[r.Intn(len(keys))], vals15(r)
-				if ks := m.Keys(); len(ks) > 0 && r.Intn(3) == 0 {
+				k, v := pick(), vals15(r)
+				if forced != nil {
+					k = forced.key
+				} else if ks := m.Keys(); len(ks) > 0 && r.Intn(4) == 0 {
 					k = ks[r.Intn(len(ks))]
 					if r.Intn(2) == 0 { // an equal key of possibly different representation
 						for _, c := range keys {
@@ -166,7 +236,7 @@ func history15(r *rand.Rand, hist map[string]int) (string, any, string, bool) {
 					refRet = fresh(o)
 				}
 			case c < 14:
-				k := keys[r.Intn(len(keys))]
+				k := pick()
 				ret = m.Delete(k)
 				opG = fmt.Sprintf("MDelete %d %s", h, in15.ov(k))
 				opS = fmt.Sprintf("delete(%d,%s)", h, gal.OValue(k))
